@@ -105,7 +105,22 @@ def c021(ctx):
         # the offset handed to waiters covers their own batch: it is `written` read *after* the batch length was added to it
         # (the fsync queue skips the sync when synced >= offset, so an offset from before the batch acknowledges it unsynced)
         wr = P.field_writes(f, r"log::WriteCoalescingCore$", "written")
-        ctx.floor(R, f.skey + " written += len", len(wr), 1)
+        if not wr:
+            # no counter of its own: the token is then something asked of the builder (its offset).  Whatever it is, it must be read *after*
+            # the batch went in -- a value from before the append names the start of the batch, and `synced >= start` is already true
+            for pt in oks:
+                st = f.blocks[pt[0]].st[pt[1]]
+                srcs_, _l = P.value_slice(f, st["rv"]["ops"][0])
+                reads_ = [x_["pt"] for x_ in srcs_ if x_["k"] == "call" and not P.TRANSPARENT.search(x_["callee"])]
+                early = [r_ for r_ in reads_ if P.order(f, ap, [r_])]
+                ctx.check(R, f, "token-covers-batch", bool(reads_) and not early,
+                          "the Ok(offset) handed to the batch's writers is read from the builder after the batch was appended",
+                          "the offset handed to waiters is read before the batch is appended (or is not read from the builder at all): it names the start "
+                          "of the batch, and the fsync queue's `synced >= offset` short-cut then acknowledges the batch without a covering fdatasync "
+                          "(the first append to a fresh log has offset 0)", pt=pt)
+            oks = []
+        else:
+            ctx.floor(R, f.skey + " written += len", len(wr), 1)
         for w in wr:
             st = f.blocks[w[0]].st[w[1]]
             srcs, _l = P.value_slice(f, st["rv"].get("a")) if st["rv"]["r"] == "use" else ([], None)
